@@ -417,3 +417,97 @@ Theorem C14_model_sources_reviewed :
     Sylt.Doc.DocSrcDigest.doc_src_digests Sylt.Gen.GenSrcDigest.src_digests = true.
 Proof. vm_compute. reflexivity. Qed.
 Print Assumptions C14_model_sources_reviewed.
+
+(* ---------------------------------------------------------------------------------------------------------------
+   C14, after the parser: parentheses and spans do not change the emitted Lua (resolver agent; models Resolve/*,
+   Dep/*, Back/IR.v + Emit.v, whose source ties are pinned in Props/C09.v, C11.v and the backend properties).
+   Fully qualified names: nothing is imported into the parser's name space.
+
+   C14_resolve_erases_parens  removing every Parenthesis node from the parser's AST (Resolve/Parens.v strip_parens)
+                      does not change the result of name resolution at all: the same variable table and statements
+                      with the same spans, or the same first error -- for every AST and every setting of the
+                      regenerated flags, although the stripped program is resolved with less fuel.  (This needs
+                      fn is_function_literal to look through parentheses: until /repo b5cd999 `f :: (fn .. f() .. end)`
+                      was not a function definition for the resolver -- found by this proof, repaired, and checked on
+                      every run by the translator gen_resolve.py and the C09 oracle family paren-fn.)
+   C14_lower_ignores_spans / C14_backend_ignores_spans
+                      the lowering and the emitted text do not depend on any span of the resolved program except the
+                      LINE of an `<!>` statement (printed in "Reached unreachable code on line N"): `er` erases all
+                      others; C14_unreachable_line_matters shows that this one cannot be erased.
+   C14_init_order_ignores_spans  the dependency order commutes with the erasure of spans.
+   C14_parens_same_lua the whole pipeline AST -> resolve -> order -> type check -> emitted text gives the same
+                      result (every verdict, every byte) for `ast` and `strip_parens ast`.
+   C14_spans_same_lua  everything after name resolution: two resolved programs equal modulo spans are ordered alike
+                      and, when the type checker accepts both, emit the same text.
+   NOT covered: the step text -> AST (above: parentheses only add Parenthesis nodes; the columns of later tokens
+   shift, which is why spans are quotiented out in C14_spans_same_lua); that the resolver's result is natural in
+   line / column numbers; that the type checker's verdict does not depend on spans (a hypothesis of
+   C14_spans_same_lua: both programs accepted). *)
+From Sylt Require Resolve.PAst Resolve.Resolver Resolve.Parens Resolve.ParensProofs Resolve.ParensLua
+     Dep.Topo Dep.SpanOrder Back.IR Back.Emit Back.SpanProofs Types.Tc.
+
+Theorem C14_resolve_erases_parens : forall fl ast,
+  Sylt.Resolve.Resolver.resolve fl (Sylt.Resolve.Parens.strip_parens ast) = Sylt.Resolve.Resolver.resolve fl ast.
+Proof. exact Sylt.Resolve.ParensProofs.resolve_erases_parens. Qed.
+
+Theorem C14_resolve_fuel_erases_parens : forall fl ast fuel fuel',
+  (Sylt.Resolve.Resolver.fuel_of ast <= fuel)%nat ->
+  (Sylt.Resolve.Resolver.fuel_of (Sylt.Resolve.Parens.strip_parens ast) <= fuel')%nat ->
+  Sylt.Resolve.Resolver.resolve_fuel fl fuel' (Sylt.Resolve.Parens.strip_parens ast)
+  = Sylt.Resolve.Resolver.resolve_fuel fl fuel ast.
+Proof. exact Sylt.Resolve.ParensProofs.resolve_fuel_erases_parens. Qed.
+
+Theorem C14_lower_ignores_spans : forall fuel r,
+  Sylt.Back.IR.lower fuel (Sylt.Back.SpanProofs.er r) = Sylt.Back.IR.lower fuel r.
+Proof. exact Sylt.Back.SpanProofs.lower_ignores_spans. Qed.
+
+Theorem C14_backend_ignores_spans : forall fuel req r1 r2,
+  Sylt.Back.SpanProofs.same_modulo_spans r1 r2 ->
+  Sylt.Back.Emit.backend fuel req r1 = Sylt.Back.Emit.backend fuel req r2.
+Proof. exact Sylt.Back.SpanProofs.backend_ignores_spans. Qed.
+
+Theorem C14_init_order_ignores_spans : forall tgt ss,
+  Sylt.Dep.Topo.init_order tgt (map Sylt.Back.SpanProofs.er_s ss)
+  = Sylt.Dep.SpanOrder.omap Sylt.Back.SpanProofs.er_s (Sylt.Dep.Topo.init_order tgt ss).
+Proof. exact Sylt.Dep.SpanOrder.init_order_er. Qed.
+
+Theorem C14_parens_same_lua : forall fl tgt fuel_tc fuel req ast,
+  Sylt.Resolve.ParensLua.pipeline fl tgt fuel_tc fuel req (Sylt.Resolve.Parens.strip_parens ast)
+  = Sylt.Resolve.ParensLua.pipeline fl tgt fuel_tc fuel req ast.
+Proof. exact Sylt.Resolve.ParensLua.parens_same_lua. Qed.
+
+Theorem C14_spans_same_lua : forall tgt fuel_tc fuel req r1 r2 l1,
+  Sylt.Back.SpanProofs.same_modulo_spans r1 r2 ->
+  Sylt.Dep.Topo.init_order tgt (Sylt.Syntax.Resolved.r_stmts r1) = Sylt.Dep.Topo.OOk l1 ->
+  exists l2, Sylt.Dep.Topo.init_order tgt (Sylt.Syntax.Resolved.r_stmts r2) = Sylt.Dep.Topo.OOk l2
+    /\ map Sylt.Back.SpanProofs.er_s l1 = map Sylt.Back.SpanProofs.er_s l2
+    /\ forall out1 out2,
+         Sylt.Types.Tc.compile_after_order (Sylt.Back.Emit.backend fuel req) fuel_tc
+           (Sylt.Syntax.Resolved.mkResolved (Sylt.Syntax.Resolved.r_vars r1) l1) = Sylt.Types.Tc.COk out1 ->
+         Sylt.Types.Tc.compile_after_order (Sylt.Back.Emit.backend fuel req) fuel_tc
+           (Sylt.Syntax.Resolved.mkResolved (Sylt.Syntax.Resolved.r_vars r2) l2) = Sylt.Types.Tc.COk out2 ->
+         out1 = out2.
+Proof. exact Sylt.Resolve.ParensLua.spans_same_lua. Qed.
+
+(* non-vacuity: the line of an `<!>` survives the erasure and changes the text; and a program with parentheses around a
+   recursive local function literal and around operands is resolved exactly like the program without them *)
+Theorem C14_unreachable_line_matters :
+  let prog l := Sylt.Syntax.Resolved.mkResolved
+                  [Sylt.Syntax.Resolved.mkVar 0 "start" Sylt.Back.SpanProofs.sp0 true Sylt.Syntax.Resolved.Const]
+                  [Sylt.Syntax.Resolved.SDefinition "start" 0 Sylt.Syntax.Resolved.Const
+                     (Sylt.Syntax.Resolved.TImplied Sylt.Back.SpanProofs.sp0)
+                     (Sylt.Syntax.Resolved.EFunction "start" [] (Sylt.Syntax.Resolved.TImplied Sylt.Back.SpanProofs.sp0)
+                        [Sylt.Syntax.Resolved.SUnreachable (Sylt.Syntax.Resolved.mkSpan 0 l l 1 4)] false
+                        Sylt.Back.SpanProofs.sp0) Sylt.Back.SpanProofs.sp0] in
+  Sylt.Back.Emit.backend 10 None (prog 3%N) <> Sylt.Back.Emit.backend 10 None (prog 4%N)
+  /\ Sylt.Back.Emit.backend 10 None (prog 3%N) = Sylt.Back.Emit.backend 10 None (Sylt.Back.SpanProofs.er (prog 3%N)).
+Proof. exact Sylt.Back.SpanProofs.unreachable_line_matters. Qed.
+
+Print Assumptions C14_resolve_erases_parens.
+Print Assumptions C14_resolve_fuel_erases_parens.
+Print Assumptions C14_lower_ignores_spans.
+Print Assumptions C14_backend_ignores_spans.
+Print Assumptions C14_init_order_ignores_spans.
+Print Assumptions C14_parens_same_lua.
+Print Assumptions C14_spans_same_lua.
+Print Assumptions C14_unreachable_line_matters.
